@@ -20,7 +20,10 @@ T0 == 1700000000
 
 Hops == {[pool |-> p, din |-> d[1], dout |-> d[2]] : p \in {1, 2}, d \in {<<"uosmo", "IBCTIA">>, <<"IBCTIA", "uusdc">>}}
 RoutesUpTo(n) == UNION {[1..k -> Hops] : k \in 0..n}
-AllowLists == {<< >>} \cup {<<r>> : r \in RoutesUpTo(MaxAllowLen) \ {<< >>}}
+\* (the contract does not validate allow-lists: a list may even contain the EMPTY route, which must still
+\*  not make an empty swap request acceptable)
+AllowLists == {<< >>, << << >> >>} \cup {<<r>> : r \in RoutesUpTo(MaxAllowLen) \ {<< >>}}
+              \cup {<< << >>, r>> : r \in RoutesUpTo(1) \ {<< >>}}
               \cup (IF MaxAllow >= 2
                     THEN {<<r1, r2>> : r1 \in RoutesUpTo(MaxAllowLen) \ {<< >>}, r2 \in RoutesUpTo(MaxAllowLen) \ {<< >>}}
                     ELSE {})
